@@ -575,6 +575,7 @@ func ruleC10(c *Ctx, r *Report) {
 		}
 		r.Check(len(ends) == 0, "C10-R4", cl.Name()+":encrypt-mode-implies-key", c.InstrPos(se), "every path from SetShouldEncrypt to a processing call installs a generated or validated key (err==nil) or exits non-zero", fmt.Sprintf("processing reachable in encrypt mode without a validated key being installed: %v", where))
 	}
+	keyFunctionsErrorDiscipline(c, r, "C10-R4")
 	encryptHonouredRule(c, r, an, "C10-R5")
 }
 
